@@ -292,7 +292,7 @@ def run(rep: Report, tier: str, seed: int) -> None:
     for i, (t, depth) in enumerate(enumerate_terms(tier)):
         cases.append(Case(i, render_case(i, t), (t, depth), (), label(t)))
     rep.rule = (
-        "annotation terms over 12 leaves + 8 Literal forms and 17 listed (+6 unlisted) constructors: depth<=1 complete; depth 2 "
+        f"annotation terms over {len(LEAVES)} leaves (builtins, None, Any, local / imported / forward-referenced class, enum, type variables, NamedTuple / TypedDict / dataclass classes) + 8 Literal forms and 17 listed (+6 unlisted) constructors: depth<=1 complete; depth 2 "
         + ("complete for unary inner terms (binary outer: one depth-1 child + one leaf, both orders)" if tier == "thorough" else "fixed slice (every constructor over every constructor)")
         + "; each term in 5 positions (parameter, constructor parameter, result, class attribute, instance attribute); distinct = distinct term"
     )
